@@ -30,10 +30,11 @@ EXTENDS Integers, Sequences, FiniteSets, TLC
 
 CONSTANTS MaxTicks, MaxReq, SecondCancel
 
-Uod == {"Short", "Long", "Forever", "OvA", "OvB", "Loop1"}      \* Loop1 never completes and writes its iteration count to Out1
+Uod == {"Short", "Long", "Forever", "OvA", "OvB", "OvC", "Loop1"}      \* Loop1 never completes and writes its iteration count to Out1
 Ctl == {"Start", "Stop", "Restart", "Pause", "Unpause", "Hold", "Unhold"}
 Dur(n) == CASE n = "Short" -> 1 [] n = "Long" -> 4 [] n \in {"Forever", "Loop1"} -> 0 [] OTHER -> 5     \* 0: never completes by itself
-Overlap(a, b) == {a, b} \subseteq {"OvA", "OvB"}          \* (also true for a = b, as in the code's overlap lists)
+\* the uod declares two overlap lists that share OvB: [OvA, OvB] and [OvB, OvC] (OvA and OvC do not overlap); also true for a = b
+Overlap(a, b) == \E g \in {{"OvA", "OvB"}, {"OvB", "OvC"}} : {a, b} \subseteq g
 
 NoInst == [rid |-> 0, k |-> 0, iter |-> 0]
 NoCmd == [rid |-> 0, phase |-> 0]
@@ -200,7 +201,7 @@ NoInstanceWhenRunEnds == st.ended => \A n \in Uod : st.inst[n].rid = 0
 (* C10/C11: an instance always belongs to a request that is still executing: otherwise it never executes or finalizes again *)
 NoOrphanInstance == \A n \in Uod : st.inst[n].rid # 0 => \E i \in DOMAIN st.execL : st.execL[i].rid = st.inst[n].rid
 (* C11: overlapping commands never hold instances together; the hooks of a tick follow the life cycle *)
-NoOverlapTogether == ~(st.inst["OvA"].rid # 0 /\ st.inst["OvB"].rid # 0)
+NoOverlapTogether == \A a, b \in Uod : (a # b /\ Overlap(a, b)) => ~(st.inst[a].rid # 0 /\ st.inst[b].rid # 0)
 HookOrder ==
     \A i \in DOMAIN st.hooks :
         LET h == st.hooks[i] IN
